@@ -25,7 +25,7 @@
      single loop with the parameter wq; every C05/C10 theorem is stated for arbitrary wq).  Process scheduling
      and SCM_RIGHTS themselves are residue. *)
 From PM Require Import Lib.Bytes Lib.ZDict Exec.Threadless Exec.ThreadlessCases Exec.ThreadlessFacts
-  Exec.Modes Exec.ModesFacts Exec.ModesCases Exec.FdTable Exec.FdTableFacts.
+  Exec.Modes Exec.ModesFacts Exec.ModesCases Exec.FdTable Exec.FdTableFacts Exec.Dispatch Exec.DispatchFacts.
 From Coq Require Import ZArith.
 
 Theorem C17_local_eq_threaded :
@@ -114,6 +114,45 @@ Theorem C17_remote_release :
                (forall f, f <> h -> f <> s -> zget f (worker p2) = zget f tw).
 Proof. exact release_after_handoff. Qed.
 Print Assumptions C17_remote_release.
+
+(* Dispatch to remote workers (acceptor.py _work, delegate.py, remote.py receive_from_work_queue). *)
+(* the worker index is in range for every acceptor id and every number of connections dispatched so far *)
+Theorem C17_worker_index_in_range :
+  forall total idd num_workers, num_workers <> 0 -> worker_index total idd num_workers < num_workers.
+Proof. exact worker_index_in_range. Qed.
+Print Assumptions C17_worker_index_in_range.
+
+(* what delegate_work_to_pool writes is what receive_from_work_queue expects, for a unix or a TCP listener
+   configuration, with or without a peer address, whatever is queued behind; so any sequence of connections
+   delegated to a pipe is received in order, each with its own descriptor *)
+Theorem C17_delegate_matches_receive :
+  forall unix addr f rest,
+    receive_one unix (delegate_msgs unix addr f ++ rest) = Ok (f, told_addr unix addr, rest).
+Proof. exact delegate_matches_receive. Qed.
+Print Assumptions C17_delegate_matches_receive.
+
+Theorem C17_receive_all_delegated :
+  forall unix conns,
+    receive_all unix (2 * length conns + 1) (flat_map (fun c => delegate_msgs unix (fst c) (snd c)) conns) =
+    Ok (map (fun c => (snd c, told_addr unix (fst c))) conns).
+Proof. exact receive_all_delegated. Qed.
+Print Assumptions C17_receive_all_delegated.
+
+(* an acceptor with as many pipes as workers never indexes out of range, whatever its id *)
+Theorem C17_dispatch_never_fails :
+  forall unix idd num_workers conns total pipes,
+    num_workers <> 0 -> length pipes = N.to_nat num_workers ->
+    exists pipes', dispatch_all unix idd num_workers total conns pipes = Ok pipes' /\ length pipes' = length pipes.
+Proof. exact dispatch_never_fails. Qed.
+Print Assumptions C17_dispatch_never_fails.
+
+(* the two ends must use the SAME configuration bit: a disagreement makes the worker fail *)
+Theorem C17_dispatch_mismatch_fails :
+  forall addr f rest,
+    (exists x, receive_one true (delegate_msgs false addr f ++ rest) = Err x) /\
+    (exists x, receive_one false (delegate_msgs true addr f ++ rest) = Err x).
+Proof. exact mismatch_fails. Qed.
+Print Assumptions C17_dispatch_mismatch_fails.
 
 (* non-vacuity: a concrete scripted handler and schedule satisfying the premise [tame]; both drivers
    (evaluated) drive it through the same five calls, it queues 5 bytes for the client, flushes 3 of them and
